@@ -50,7 +50,7 @@ mod verif_c10_mode_s {
         }
     }
 
-    //@ob id=C10.mode_s.precedence flags=noassert props=C10,C07,C11 tier=quick kind=harness fns=plane/from_squitter/from_mode_s.rs:update_from_mode_s draw=frame28
+    //@ob id=C10.mode_s.precedence flags=noassert props=C10,C07,C11,C01 tier=quick kind=harness fns=plane/from_squitter/from_mode_s.rs:update_from_mode_s draw=frame28
     //@region Comm-B part of the row step for every combination of recogniser results, every row, -R on/off: BDS 2,0 -> callsign, BDS 3,0 -> threat flag; otherwise the first of 1,7 > 4,0 > 5,0 > 6,0 that is recognised AND (for 4,0/5,0/6,0) advertised by the recorded BDS 1,7 report or -R is applied, its decoded values copied into the row; no other parameter changes
     #[kani::proof]
     #[kani::unwind(34)]
